@@ -267,6 +267,14 @@ func GenC20(t *rapid.T) *C20Case {
 		si = sj
 	}
 	g := &c20gen{t: t, target: cands[si].id, kind: kind, rawNL: oneIn(t, 10, "rawnl")}
+	// line numbers beyond 255 / 65535 (a counter that is too narrow): many newlines before the root
+	if oneIn(t, 25, "manylines") {
+		n := []int{255, 256, 257, 300, 1000}[drawIdx(t, 5, "nl")]
+		if Thorough() && drawBool(t, "huge") {
+			n = []int{65535, 65536, 70000}[drawIdx(t, 3, "nlh")]
+		}
+		g.sb.WriteString(strings.Repeat("\n", n))
+	}
 	// optional text before the root bracket (no brackets, may contain newlines)
 	if oneIn(t, 3, "prefix") {
 		parts := []string{"garbage", "\n", "\n\n", " ", "x=1;", "\r\n", "// comment\n", "\t", "é\n"}
